@@ -899,6 +899,19 @@ def _stream_scan(prog: Program, f, eager_params: Dict[str, Set[str]]):
         # which runs the producer to its end when the number fits; a starred target takes everything
         if isinstance(n, ast.Assign) and any(isinstance(t, (ast.Tuple, ast.List)) for t in n.targets) and is_stream(n.value):
             hits.append((n, "unpacking a result stream drains it (the arity check pulls until the producer ends)"))
+        # a generator that loops over a stream and puts what it makes of each element into a local collection that it yields from later
+        # hands its first result on only after it has pulled further elements: the consumer's k-th result costs more than a prefix
+        if isinstance(n, ast.For) and is_stream(n.iter) and getattr(f, "is_generator", False):
+            kept = set()
+            for x in ast.walk(n):
+                if isinstance(x, ast.Call) and isinstance(x.func, ast.Attribute) and x.func.attr in ("append", "add", "insert", "appendleft") and isinstance(x.func.value, ast.Name):
+                    kept.add(x.func.value.id)
+            for x in walk_local(f.node):
+                src_ = x.value if isinstance(x, ast.YieldFrom) else None
+                if src_ is None and isinstance(x, ast.For) and any(isinstance(y, (ast.Yield, ast.YieldFrom)) for y in ast.walk(x)):
+                    src_ = x.iter
+                if isinstance(src_, ast.Name) and src_.id in kept:
+                    hits.append((n, f"what is made of the elements of a stream is kept in `{src_.id}` and handed on later: the first result waits for further elements"))
     return hits
 
 
